@@ -415,6 +415,11 @@ def oracle(ctx, volume=1):
     if not ctx.quick:
         extra += [("Gate", "qq", "near", False, 1e-6), ("Povm", "qq", "lowpurity", True, 1e-10),
                   ("State", "qt", "lowpurity", False, 1e-10), ("State", "tq", "lowpurity", True, 1e-10)]
+    # systems of equal dimension with different bases used one after the other (Pauli x Pauli -> 4-level generalised
+    # Gell-Mann -> rotated 2-qubit basis; qubit Pauli -> rotated qubit): per-system HS <-> Choi tables must not leak
+    extra += [("Gate", "qq", "physical", False, 1e-10), ("Gate", "g4", "physical", False, 1e-10), ("Gate", "g4", "near", True, 1e-8),
+              ("Gate", "qqr", "near", False, 1e-8), ("Gate", "q", "near", False, 1e-10), ("Gate", "qr", "near", True, 1e-10),
+              ("MProcess", "qr", "near", False, 1e-8), ("MProcess", "qr", "physical", True, 1e-12)]
     for rep in range(volume):
         for typ, kind, cls, flag, eps in extra:
             m = 2 if typ in ("Povm", "MProcess") else 1
@@ -437,6 +442,7 @@ def replay(ctx, data):
     r = data["replay"]
     print("replaying", {k: v for k, v in r.items() if k != "x0"})
     before = len(ctx.violations)
+    c04.warm_siblings(r["system"])
     check_start(ctx, ctx.npgen(1), r["typ"], r["system"], r["m"], np.array(r["x0"], dtype=float), r["flag"], r["eps"],
                 r.get("class", "near"), r.get("max_iter", 1000), 8)
     for v in ctx.violations[before:]:
